@@ -76,12 +76,13 @@ def mkLit (k : LitKind) (c : Const) : Except GenErr HlslAst.Lit :=
   | .FloatUntyped, .floatLit b => .ok (.floatUntyped b)
   | _, _ => .error (.unsupported "literal kind")
 
-/-- `-v as u64`: the negation is computed in the constant's own type (i32 overflows on `i32::MIN`, debug build) -/
-def negMagnitude (c : Const) : Except GenErr Nat :=
+/-- magnitude of a negative constant.  `checked` = the arm computes `-v as u64` in the constant's own type (an `i32`
+overflows on `i32::MIN`, debug build); otherwise `u64::from(v.unsigned_abs())`, which is total (since fix b1ff3d2) -/
+def negMagnitude (checked : Bool) (c : Const) : Except GenErr Nat :=
   match c with
   | .intLit v => .ok (-v).toNat
   | .int32 v =>
-    if v = BitVec.intMin 32 then .error (.panic "hlsl/src/ast_generate.rs: attempt to negate with overflow")
+    if checked = true ∧ v = BitVec.intMin 32 then .error (.panic "hlsl/src/ast_generate.rs: attempt to negate with overflow")
     else .ok (-v.toInt).toNat
   | _ => .error (.unsupported "negMinus arm on a non-integer constant")
 
@@ -94,7 +95,12 @@ def genLiteral (c : Const) : Except GenErr HlslAst.Expr :=
   | some (.plain k) => (mkLit k c).map .lit
   | some (.widen k) => (mkLit k c).map .lit
   | some (.negMinus k) =>
-    match k, negMagnitude c with
+    match k, negMagnitude true c with
+    | .IntUntyped, .ok m => .ok (.un .Minus (.lit (.intUntyped m)))
+    | _, .ok _ => .error (.unsupported "negMinus kind")
+    | _, .error e => .error e
+  | some (.negMinusAbs k) =>
+    match k, negMagnitude false c with
     | .IntUntyped, .ok m => .ok (.un .Minus (.lit (.intUntyped m)))
     | _, .ok _ => .error (.unsupported "negMinus kind")
     | _, .error e => .error e
